@@ -409,6 +409,47 @@ fn sround_program(grid: i64, sel: i64, d: i64) -> Vec<u8> {
     p
 }
 
+/// `a [b] OP` executed by the real interpreter; the result is written to point 0's x (SCFS) and read
+/// back from the pen. None = the value is too large to be read back exactly through f32.
+fn interp_arith(opc: i64, a: i64, b: i64, unary: bool) -> Result<Option<Vec<i64>>, Trap> {
+    let mut p = vec![0x01]; // SVTCA[x]
+    pushw(&mut p, 0);
+    push_any(&mut p, a as i32);
+    if !unary {
+        push_any(&mut p, b as i32);
+    }
+    p.push(opc as u8);
+    p.push(0x48); // SCFS
+    let spec = TtSpec { glyph_prog: p, pts: vec![(0, 0), (500, 0), (500, 700)], ..Default::default() };
+    let bytes = build_tt(&spec);
+    match catch_loc(move || draw_hinted(&bytes, 0, 1000.0, 0, true))? {
+        Ok(pts) => {
+            let x = (pts[0].0 as f64 * 64.0).round() as i64;
+            Ok(if x.abs() < (1 << 23) { Some(vec![x]) } else { None })
+        }
+        // pedantic: a HintError (DIV by zero) aborts the draw
+        Err(_) => Ok(Some(vec![-1])),
+    }
+}
+
+/// CVT entry 0 = `v`, scaled for (ppem, upem), read back with RCVT + SCFS
+fn interp_cvt(v: i64, ppem: i64, upem: i64) -> Result<Option<Vec<i64>>, Trap> {
+    let mut p = vec![0x01];
+    pushw(&mut p, 0);
+    pushw(&mut p, 0);
+    p.push(0x45); // RCVT
+    p.push(0x48); // SCFS
+    let spec = TtSpec { glyph_prog: p, pts: vec![(0, 0), (500, 0), (500, 700)], cvt: vec![v as i16], upem: upem as u16, ..Default::default() };
+    let bytes = build_tt(&spec);
+    match catch_loc(move || draw_hinted(&bytes, 0, ppem as f32, 0, true))? {
+        Ok(pts) => {
+            let x = (pts[0].0 as f64 * 64.0).round() as i64;
+            Ok(if x.abs() < (1 << 23) { Some(vec![x]) } else { None })
+        }
+        Err(_) => Ok(None),
+    }
+}
+
 fn run_op(op: i64, a: &[i64]) -> Result<Vec<i64>, Trap> {
     use skrifa::verif::math;
     let a = a.to_vec();
@@ -446,6 +487,27 @@ fn run_op(op: i64, a: &[i64]) -> Result<Vec<i64>, Trap> {
             30 => vec![F26Dot6::from_bits(i(0)).to_i32() as i64],
             31 => vec![F26Dot6::from_bits(i(0)).fract().to_bits() as i64],
             32 => vec![F2Dot14::from_bits(a[0] as i16).fract().to_bits() as i64],
+            33 => {
+                let mut x = fx(0);
+                x += fx(1);
+                let mut y = F26Dot6::from_bits(i(0));
+                y += F26Dot6::from_bits(i(1));
+                assert_eq!(x.to_bits(), y.to_bits());
+                vec![x.to_bits() as i64]
+            }
+            34 => {
+                let mut x = fx(0);
+                x -= fx(1);
+                let mut y = F26Dot6::from_bits(i(0));
+                y -= F26Dot6::from_bits(i(1));
+                assert_eq!(x.to_bits(), y.to_bits());
+                vec![x.to_bits() as i64]
+            }
+            35 => {
+                let mut x = F2Dot14::from_bits(a[0] as i16);
+                x += F2Dot14::from_bits(a[1] as i16);
+                vec![x.to_bits() as i64]
+            }
             40 => {
                 use read_fonts::tables::glyf::PointCoord;
                 vec![<i32 as PointCoord>::midpoint(i(0), i(1)) as i64]
@@ -801,6 +863,51 @@ fn correspondence(st: &mut Stats, cw: &mut CaseWriter, rng: &mut Rng, thorough: 
             Ok(Err(_)) => {}
         }
     }
+    // += / -= of the fixed types
+    for op in [33i64, 34] {
+        for a in &sub {
+            for b in &sub {
+                if rng.chance(1, 4) {
+                    c.emit(op, vec![*a, *b]);
+                }
+            }
+        }
+        c.emit(op, vec![mx, 1]);
+        c.emit(op, vec![mn, 1]);
+        c.emit(op, vec![mn, -1]);
+        c.emit(op, vec![mx, mx]);
+    }
+    for (a, b) in [(32767i64, 1i64), (-32768, -1), (32767, 32767), (-32768, -32768), (100, -200), (16384, 16384)] {
+        c.emit(35, vec![a, b]);
+    }
+    // the ten arithmetic instructions through the real interpreter (op 13)
+    {
+        let small: Vec<i64> = vec![0, 1, -1, 63, 64, 65, -64, 100, -100, 4096, -4097, 32767, -32768, 100000, -100000, 1 << 22, -(1 << 22)];
+        let big: Vec<i64> = vec![mx, mn, mx - 1, mn + 1, 1 << 30, -(1 << 30), 1 << 25, -(1 << 25), 0x7FFF0000];
+        for (opc, unary) in [(0x60i64, false), (0x61, false), (0x62, false), (0x63, false), (0x64, true), (0x65, true), (0x66, true), (0x67, true), (0x8B, false), (0x8C, false)] {
+            let n = if thorough { 160 } else { 50 };
+            for _ in 0..n {
+                let a = if rng.chance(2, 3) { *rng.pick(&small) } else { *rng.pick(&big) };
+                let b = if unary { 0 } else if rng.chance(2, 3) { *rng.pick(&small) } else { *rng.pick(&big) };
+                match interp_arith(opc, a, b, unary) {
+                    Err(t) => c.emit_res(13, vec![opc, a, b], Err(t)),
+                    // DIV by zero is a HintError (the pedantic draw fails): [-1], as the model's Some None
+                    Ok(Some(v)) => c.emit_res(13, vec![opc, a, b], Ok(v)),
+                    Ok(None) => c.st.count("op13.value_too_large_for_f32_skipped"),
+                }
+            }
+        }
+        // scaled CVT (op 14)
+        for v in [0i64, 1, -1, 100, -100, 700, 32767, -32768, 16384, 12345] {
+            for (ppem, upem) in [(16i64, 1000i64), (1000, 1000), (11, 2048), (64, 16), (8, 16384), (200, 1000), (1, 1000), (100, 65535)] {
+                match interp_cvt(v, ppem, upem) {
+                    Err(t) => c.emit_res(14, vec![v, ppem, upem], Err(t)),
+                    Ok(Some(x)) => c.emit_res(14, vec![v, ppem, upem], Ok(x)),
+                    Ok(None) => c.st.count("op14.skipped"),
+                }
+            }
+        }
+    }
     // fvar normalize
     let fx_vals: Vec<i64> = vec![0, 65536, -65536, 100 << 16, 400 << 16, 900 << 16, i32::MIN as i64, i32::MAX as i64, 1, -1, i32::MIN as i64 + 1, i32::MAX as i64 - 1, 32768, -32768];
     for _ in 0..nr * 2 {
@@ -885,6 +992,7 @@ enum K {
     Z, // zone 0/1
     N, // small count
     B, // selector byte
+    D, // DELTAP/DELTAC exception argument: (ppem - delta_base) << 4 | step
 }
 
 const OPS: &[(u8, &str, &[K])] = &[
@@ -940,12 +1048,12 @@ const OPS: &[(u8, &str, &[K])] = &[
     (0x52, "GT", &[K::V, K::V]),
     (0x56, "ODD", &[K::V]),
     (0x57, "EVEN", &[K::V]),
-    (0x5D, "DELTAP1", &[K::V, K::P, K::V, K::P, K::N]),
-    (0x71, "DELTAP2", &[K::V, K::P, K::N]),
-    (0x72, "DELTAP3", &[K::V, K::P, K::N]),
-    (0x73, "DELTAC1", &[K::V, K::C, K::V, K::C, K::N]),
-    (0x74, "DELTAC2", &[K::V, K::C, K::N]),
-    (0x75, "DELTAC3", &[K::V, K::C, K::N]),
+    (0x5D, "DELTAP1", &[K::D, K::P, K::D, K::P, K::N]),
+    (0x71, "DELTAP2", &[K::D, K::P, K::N]),
+    (0x72, "DELTAP3", &[K::D, K::P, K::N]),
+    (0x73, "DELTAC1", &[K::D, K::C, K::D, K::C, K::N]),
+    (0x74, "DELTAC2", &[K::D, K::C, K::N]),
+    (0x75, "DELTAC3", &[K::D, K::C, K::N]),
     (0x5E, "SDB", &[K::V]),
     (0x5F, "SDS", &[K::N]),
     (0x60, "ADD", &[K::V, K::V]),
@@ -1036,6 +1144,16 @@ fn pick_operand(rng: &mut Rng, k: K) -> i32 {
             }
         }
         K::B => rng.range(0, 255) as i32,
+        K::D => {
+            // default delta_base 9: ppem 16 -> high nibble 7, ppem 11 -> 2, ppem 8 unreachable; also after SDB
+            match rng.range(0, 5) {
+                0 | 1 => 0x70 | rng.range(0, 15) as i32,
+                2 => 0x20 | rng.range(0, 15) as i32,
+                3 => rng.range(0, 255) as i32,
+                4 => rng.range(0, 15) as i32,
+                _ => *rng.pick(VEXT),
+            }
+        }
     }
 }
 
@@ -1145,6 +1263,21 @@ fn gen_setup(rng: &mut Rng) -> Vec<(Vec<u8>, String)> {
     }
     if rng.chance(1, 8) {
         one(vec![if rng.chance(1, 2) { 0x4D } else { 0x4E }], "FLIPON/OFF".into());
+    }
+    if rng.chance(1, 6) {
+        // delta shift / delta base, valid and invalid
+        let n = *rng.pick(&[0i32, 1, 3, 6, 7, -1, -2, -10, 65536 + 3, i32::MIN, i32::MAX, 65535]);
+        let mut p = vec![];
+        push_any(&mut p, n);
+        p.push(0x5F);
+        one(p, format!("{n} SDS"));
+    }
+    if rng.chance(1, 8) {
+        let n = *rng.pick(&[0i32, 9, 16, 8, 1, -1, 65535, 65536 + 16, i32::MAX, i32::MIN]);
+        let mut p = vec![];
+        push_any(&mut p, n);
+        p.push(0x5E);
+        one(p, format!("{n} SDB"));
     }
     out
 }
@@ -1327,7 +1460,7 @@ fn table_dir(b: &[u8]) -> Vec<([u8; 4], usize, usize)> {
 }
 
 const E16: &[u16] = &[0, 1, 2, 0x7FFF, 0x8000, 0x8001, 0xFFFF, 0xFFFE, 0x4000, 0xC000, 16, 15, 17];
-const E32: &[u32] = &[0, 1, 0x7FFFFFFF, 0x80000000, 0x80000001, 0xFFFFFFFF, 0x00010000, 0xFFFF0000, 0x7FFF0000, 0x00FFFFFF];
+const E32: &[u32] = &[0, 1, 0x7FFFFFFF, 0x80000000, 0x80000001, 0xFFFFFFFF, 0xFFFFFFFE, 0xFFFFFFFD, 0xFFFFFFFC, 0x00010000, 0xFFFF0000, 0x7FFF0000, 0x00FFFFFF];
 
 #[derive(Clone)]
 struct Mutation {
@@ -1372,6 +1505,41 @@ fn gen_mutation(rng: &mut Rng, fonts: &[(&'static str, Vec<u8>)]) -> Mutation {
                 if rng.chance(1, 2) {
                     let v = *rng.pick(&[0x7FFFu16, 0x8000]);
                     edits.push((format!("cvt +{}", 2 * k), off + 2 * k, v.to_be_bytes().to_vec()));
+                }
+            }
+        }
+    }
+    // variable COLR: VarIndexBase-like longs close to u32::MAX anywhere in the table
+    if fonts[fi].0.contains("COLR") && rng.chance(1, 3) {
+        if let Some((_, off, len)) = find(b"COLR") {
+            for _ in 0..rng.range(1, 3) {
+                if len > 8 {
+                    let rel = rng.below((len - 4) as u64) as usize;
+                    let v = *rng.pick(&[0xFFFFFFFEu32, 0xFFFFFFFD, 0xFFFFFFFC, 0xFFFFFFFB, 0xFFFFFFF0]);
+                    edits.push((format!("COLR+{}", rel), off + rel, v.to_be_bytes().to_vec()));
+                }
+            }
+        }
+    }
+    // glyph-keyed IFT bases: non-monotonic glyph data offsets (loca / gvar offsets)
+    if fonts[fi].0.contains("glyph_keyed") && rng.chance(1, 2) {
+        if let (Some((_, hoff, hlen)), Some((_, off, len))) = (find(b"head"), find(b"loca")) {
+            let long = hlen >= 52 && b[hoff + 51] != 0;
+            let w = if long { 4 } else { 2 };
+            for _ in 0..rng.range(1, 2) {
+                let k = rng.range(0, 16.min((len / w) as i64 - 1).max(0)) as usize;
+                let v: u32 = *rng.pick(&[0u32, 1, 2, 0xFFFF, 0xFFFFFFFF, 0x7FFF, 0x8000]);
+                let bytes = if long { v.to_be_bytes().to_vec() } else { (v as u16).to_be_bytes().to_vec() };
+                edits.push((format!("loca+{} (entry {})", k * w, k), off + k * w, bytes));
+            }
+        }
+        if rng.chance(1, 3) {
+            if let Some((_, off, len)) = find(b"gvar") {
+                // glyph variation data offsets start at 20
+                let k = rng.range(0, 16) as usize;
+                if 20 + 2 * k + 2 <= len {
+                    let v = *rng.pick(&[0u16, 1, 0xFFFF, 0x7FFF]);
+                    edits.push((format!("gvar+{} (offset {})", 20 + 2 * k, k), off + 20 + 2 * k, v.to_be_bytes().to_vec()));
                 }
             }
         }
@@ -1439,7 +1607,7 @@ impl skrifa::color::ColorPainter for NopPainter {
 
 const API_NAMES: &[&str] = &[
     "metrics", "glyph_metrics", "charmap", "draw_unhinted", "draw_hinted_interpreter", "draw_autohint", "color_paint",
-    "names_attrs", "klippa_subset", "ift_select", "draw_harfbuzz_style", "bitmap_tables", "ift_apply",
+    "names_attrs", "klippa_subset", "ift_select", "draw_harfbuzz_style", "bitmap_tables", "ift_apply", "bitmap_strikes",
 ];
 
 /// Runs API number `api` on the font bytes; all randomness from (sel).
@@ -1544,7 +1712,8 @@ fn run_api(bytes: &[u8], api: usize, sel: u64) -> Result<(), Trap> {
             }
             6 => {
                 let cg = font.color_glyphs();
-                for g in gids.iter().chain([4u32, 5, 6, 7, 8, 9, 10, 20, 50, 100, 150].iter()) {
+                let all: Vec<u32> = if font.colr().is_ok() { (0..ng.min(400)).collect() } else { vec![] };
+                for g in gids.iter().chain(all.iter()) {
                     if let Some(gl) = cg.get(GlyphId::new(*g)) {
                         let _ = gl.bounding_box(lref, size);
                         let _ = gl.paint(lref, &mut NopPainter);
@@ -1630,7 +1799,7 @@ fn run_api(bytes: &[u8], api: usize, sel: u64) -> Result<(), Trap> {
                     let uris: Vec<String> = g.uris().map(|s| s.to_string()).collect();
                     let mut map = std::collections::HashMap::new();
                     for u in uris {
-                        let glyph_keyed = bytes.len() > 20_000; // only the NOTO-based IFT font carries the glyph-keyed map
+                        let glyph_keyed = ng > 8; // only the bigger IFT bases carry the glyph-keyed map
                         let k = if glyph_keyed { 2 + rng.below(5) } else if rng.chance(1, 2) { rng.below(2) } else { 2 + rng.below(5) };
                         let mut pbytes = ift_patch_pool(k as usize);
                         for _ in 0..rng.range(0, 3) {
@@ -1650,6 +1819,35 @@ fn run_api(bytes: &[u8], api: usize, sel: u64) -> Result<(), Trap> {
                     let r = g.apply_next_patches_with_decoder(&mut map, &LenientDecoder);
                     if std::env::var("C20_TRACE").is_ok() {
                         eprintln!("IFTAPPLY {:?}", r.as_ref().map(|v| v.len()));
+                    }
+                }
+            }
+            13 => {
+                let all: Vec<u32> = gids.iter().cloned().chain(0..ng.min(64)).collect();
+                if let (Ok(loc_t), Ok(dat)) = (font.cblc(), font.cbdt()) {
+                    for size in loc_t.bitmap_sizes() {
+                        let _ = (size.ppem_x(), size.ppem_y(), size.hori.ascender(), size.vert.descender());
+                        for g in &all {
+                            if let Ok(l) = size.location(loc_t.offset_data(), GlyphId::new(*g)) {
+                                let _ = dat.data(&l);
+                            }
+                        }
+                    }
+                }
+                if let (Ok(loc_t), Ok(dat)) = (font.eblc(), font.ebdt()) {
+                    for size in loc_t.bitmap_sizes() {
+                        for g in &all {
+                            if let Ok(l) = size.location(loc_t.offset_data(), GlyphId::new(*g)) {
+                                let _ = dat.data(&l);
+                            }
+                        }
+                    }
+                }
+                if let Ok(sbix) = font.sbix() {
+                    for strike in sbix.strikes().iter().flatten() {
+                        for g in &all {
+                            let _ = strike.glyph_data(GlyphId::new(*g));
+                        }
                     }
                 }
             }
@@ -1790,17 +1988,358 @@ fn load_fonts() -> Vec<(&'static str, Vec<u8>)> {
         tabs.push((*b"IFT ", d::ift::table_keyed_format2().as_slice().to_vec()));
         let refs: Vec<(&[u8; 4], Vec<u8>)> = tabs.iter().map(|(t, b)| (t, b.clone())).collect();
         v.push(("IFT:table_keyed_format2+tab1+tab2", sfnt(&refs)));
-        let mut tabs: Vec<([u8; 4], Vec<u8>)> = vec![];
-        for (tag, off, len) in table_dir(d::NOTO_SERIF_DISPLAY_TRIMMED) {
-            tabs.push((tag, d::NOTO_SERIF_DISPLAY_TRIMMED[off..off + len].to_vec()));
+        for (name, base) in [
+            ("IFT:glyph_keyed_map_on_NOTO_SERIF_DISPLAY_TRIMMED", d::NOTO_SERIF_DISPLAY_TRIMMED),
+            ("IFT:glyph_keyed_map_on_HVAR_WITH_TRUNCATED_ADVANCE_INDEX_MAP", d::HVAR_WITH_TRUNCATED_ADVANCE_INDEX_MAP),
+        ] {
+            let mut tabs: Vec<([u8; 4], Vec<u8>)> = vec![];
+            for (tag, off, len) in table_dir(base) {
+                tabs.push((tag, base[off..off + len].to_vec()));
+            }
+            let mut map = d::ift::table_keyed_format2();
+            map.write_at("encoding", 3u8); // glyph keyed
+            tabs.push((*b"IFT ", map.as_slice().to_vec()));
+            let refs: Vec<(&[u8; 4], Vec<u8>)> = tabs.iter().map(|(t, b)| (t, b.clone())).collect();
+            v.push((name, sfnt(&refs)));
         }
-        let mut map = d::ift::table_keyed_format2();
-        map.write_at("encoding", 3u8); // glyph keyed
-        tabs.push((*b"IFT ", map.as_slice().to_vec()));
-        let refs: Vec<(&[u8; 4], Vec<u8>)> = tabs.iter().map(|(t, b)| (t, b.clone())).collect();
-        v.push(("IFT:glyph_keyed_map_on_NOTO_SERIF_DISPLAY_TRIMMED", sfnt(&refs)));
     }
     v
+}
+
+// ------------------------------------------------------------------------------------------------
+// (b3) structured extreme-value fonts: IFT format-1 feature maps with huge counts, a variable TrueType
+//      font with extreme gvar deltas, a CFF font whose charstrings carry extreme operands
+// ------------------------------------------------------------------------------------------------
+fn simple_glyf_tables() -> Vec<([u8; 4], Vec<u8>)> {
+    let b = font_test_data::SIMPLE_GLYF;
+    table_dir(b).into_iter().map(|(t, o, l)| (t, b[o..o + l].to_vec())).collect()
+}
+
+/// IFT patch map format 1 built by hand; `recs` = (tag, first_new_entry_index, entry_map_count)
+fn build_ift_format1(max_entry: u16, max_glyph_entry: u16, recs: &[([u8; 4], u16, u16)], entry_fill: &[(u16, u16)], pad_to_counts: bool) -> Vec<u8> {
+    let mut t = vec![1u8];
+    be32(&mut t, 0);
+    for k in [1u32, 2, 3, 4] {
+        be32(&mut t, k);
+    }
+    be16(&mut t, max_entry);
+    be16(&mut t, max_glyph_entry);
+    t.extend_from_slice(&[0, 0, 3]); // glyph count (u24) = SIMPLE_GLYF's maxp.numGlyphs
+    let off_pos = t.len();
+    be32(&mut t, 0);
+    be32(&mut t, 0);
+    let bitmap = (max_entry as usize + 8) / 8;
+    t.extend(std::iter::repeat(0u8).take(bitmap));
+    be16(&mut t, 8);
+    t.extend_from_slice(&[b'A', b'B', b'C', b'D', b'E', b'F', 0xc9, 0xa4]);
+    t.push(3);
+    let gm = t.len() as u32;
+    be16(&mut t, 2);
+    for e in [max_glyph_entry] {
+        if max_glyph_entry < 256 {
+            t.push(e as u8);
+        } else {
+            be16(&mut t, e);
+        }
+    }
+    let fm = t.len() as u32;
+    t[off_pos..off_pos + 4].copy_from_slice(&gm.to_be_bytes());
+    t[off_pos + 4..off_pos + 8].copy_from_slice(&fm.to_be_bytes());
+    be16(&mut t, recs.len() as u16);
+    for (tag, first, count) in recs {
+        t.extend_from_slice(tag);
+        be16(&mut t, *first);
+        be16(&mut t, *count);
+    }
+    let total: usize = if pad_to_counts { recs.iter().map(|r| r.2 as usize).sum() } else { entry_fill.len() };
+    for k in 0..total {
+        let (f, l) = entry_fill.get(k).copied().unwrap_or((0, 0));
+        if max_entry < 256 {
+            t.push(f as u8);
+            t.push(l as u8);
+        } else {
+            be16(&mut t, f);
+            be16(&mut t, l);
+        }
+    }
+    t
+}
+
+/// minimal CFF1 table with two glyphs (.notdef = endchar, glyph 1 = `cs`)
+fn build_cff(cs: &[u8], private: &[u8]) -> Vec<u8> {
+    fn index(items: &[&[u8]]) -> Vec<u8> {
+        let mut v = vec![];
+        be16(&mut v, items.len() as u16);
+        if items.is_empty() {
+            return v;
+        }
+        v.push(4);
+        let mut off = 1u32;
+        be32(&mut v, off);
+        for it in items {
+            off += it.len() as u32;
+            be32(&mut v, off);
+        }
+        for it in items {
+            v.extend_from_slice(it);
+        }
+        v
+    }
+    fn int5(v: &mut Vec<u8>, x: i32) {
+        v.push(29);
+        v.extend_from_slice(&x.to_be_bytes());
+    }
+    let header = vec![1u8, 0, 4, 4];
+    let name = index(&[b"A"]);
+    let strings = index(&[]);
+    let gsubrs = index(&[]);
+    let charstrings = index(&[&[14u8], cs]);
+    // top dict: CharStrings (17), Private (18) with 5-byte operands => fixed size 5+1 + 10+1 = 17
+    let top_len = 17usize;
+    let top_index_len = 2 + 1 + 8 + top_len;
+    let cs_off = header.len() + name.len() + top_index_len + strings.len() + gsubrs.len();
+    let priv_off = cs_off + charstrings.len();
+    let mut top = vec![];
+    int5(&mut top, cs_off as i32);
+    top.push(17);
+    int5(&mut top, private.len() as i32);
+    int5(&mut top, priv_off as i32);
+    top.push(18);
+    assert_eq!(top.len(), top_len);
+    let top_index = index(&[&top]);
+    assert_eq!(top_index.len(), top_index_len);
+    let mut t = header;
+    t.extend(name);
+    t.extend(top_index);
+    t.extend(strings);
+    t.extend(gsubrs);
+    t.extend(charstrings);
+    t.extend_from_slice(private);
+    t
+}
+
+fn build_cff_font(cs: &[u8], private: &[u8], upem: u16) -> Vec<u8> {
+    let mut head = vec![];
+    be32(&mut head, 0x00010000);
+    be32(&mut head, 0x00010000);
+    be32(&mut head, 0);
+    be32(&mut head, 0x5F0F3CF5);
+    be16(&mut head, 0x000B);
+    be16(&mut head, upem);
+    head.extend_from_slice(&[0; 16]);
+    for v in [0i16, 0, 500, 700] {
+        bei16(&mut head, v);
+    }
+    be16(&mut head, 0);
+    be16(&mut head, 6);
+    bei16(&mut head, 2);
+    bei16(&mut head, 0);
+    bei16(&mut head, 0);
+    let mut maxp = vec![];
+    be32(&mut maxp, 0x00005000);
+    be16(&mut maxp, 2);
+    let mut hhea = vec![];
+    be32(&mut hhea, 0x00010000);
+    bei16(&mut hhea, 800);
+    bei16(&mut hhea, -200);
+    bei16(&mut hhea, 0);
+    be16(&mut hhea, 600);
+    hhea.extend_from_slice(&[0; 22]);
+    be16(&mut hhea, 2);
+    let mut hmtx = vec![];
+    for _ in 0..2 {
+        be16(&mut hmtx, 600);
+        bei16(&mut hmtx, 0);
+    }
+    let mut f = sfnt(&[(b"head", head), (b"maxp", maxp), (b"hhea", hhea), (b"hmtx", hmtx), (b"CFF ", build_cff(cs, private))]);
+    f[0..4].copy_from_slice(b"OTTO");
+    f
+}
+
+/// random Type 2 charstring with extreme operands; returns (bytes, text)
+fn gen_charstring(rng: &mut Rng) -> (Vec<u8>, String) {
+    let mut cs = vec![];
+    let mut txt = String::new();
+    let num = |cs: &mut Vec<u8>, txt: &mut String, rng: &mut Rng| {
+        match rng.range(0, 9) {
+            0..=3 => {
+                let v = *rng.pick(&[32767i16, -32768, 32766, -32767, 16384, 1, -1, 0, 255, 1000]);
+                cs.push(28);
+                cs.extend_from_slice(&v.to_be_bytes());
+                txt.push_str(&format!("{v} "));
+            }
+            4..=6 => {
+                let v = *rng.pick(&[0x7FFFFFFFi32, i32::MIN, 0x7FFF0000, -0x7FFF0000, 0x7FFFFFFE, 0x00010000, 1, -1, 0x40000000, 0x3FFFFFFF]);
+                cs.push(255);
+                cs.extend_from_slice(&v.to_be_bytes());
+                txt.push_str(&format!("{v}/65536 "));
+            }
+            _ => {
+                let v = rng.range(-107, 107);
+                cs.push((v + 139) as u8);
+                txt.push_str(&format!("{v} "));
+            }
+        }
+    };
+    // (operator bytes, name, operand count choices)
+    let ops: &[(&[u8], &str, &[usize])] = &[
+        (&[21], "rmoveto", &[2, 3]),
+        (&[22], "hmoveto", &[1, 2]),
+        (&[4], "vmoveto", &[1, 2]),
+        (&[5], "rlineto", &[2, 4, 6]),
+        (&[6], "hlineto", &[1, 2, 3, 4]),
+        (&[7], "vlineto", &[1, 2, 3, 4]),
+        (&[8], "rrcurveto", &[6, 12]),
+        (&[27], "hhcurveto", &[4, 5, 8]),
+        (&[26], "vvcurveto", &[4, 5, 8]),
+        (&[31], "hvcurveto", &[4, 5, 8, 9]),
+        (&[30], "vhcurveto", &[4, 5, 8, 9]),
+        (&[24], "rcurveline", &[8]),
+        (&[25], "rlinecurve", &[8]),
+        (&[12, 35], "flex", &[13]),
+        (&[12, 34], "hflex", &[7]),
+        (&[12, 36], "hflex1", &[9]),
+        (&[12, 37], "flex1", &[11]),
+        (&[1], "hstem", &[2, 4, 3]),
+        (&[3], "vstem", &[2, 4, 3]),
+        (&[18], "hstemhm", &[2, 4]),
+        (&[23], "vstemhm", &[2, 4]),
+        (&[10], "callsubr", &[1]),
+        (&[29], "callgsubr", &[1]),
+    ];
+    let n = rng.range(1, 6);
+    for _ in 0..n {
+        let (bytes, name, counts) = ops[rng.below(ops.len() as u64) as usize];
+        let c = *rng.pick(counts);
+        for _ in 0..c {
+            num(&mut cs, &mut txt, rng);
+        }
+        cs.extend_from_slice(bytes);
+        txt.push_str(name);
+        txt.push_str(" ; ");
+    }
+    cs.push(14);
+    txt.push_str("endchar");
+    (cs, txt)
+}
+
+/// glyph-0 points + gvar with extreme deltas on top of the synthetic TrueType font
+fn build_var_tt(rng: &mut Rng) -> (Vec<u8>, serde_json::Value) {
+    use write_fonts::tables::gvar::{GlyphDelta, GlyphDeltas, GlyphVariations, Gvar, Tent};
+    let ext = [i16::MAX, i16::MIN, 0, 1, -1, 16384, -16384, 32766];
+    let spec = TtSpec {
+        pts: if rng.chance(1, 2) { vec![(0, 0), (500, 0), (500, 700), (250, 900), (0, 700)] } else { (0..5).map(|_| (*rng.pick(&ext), *rng.pick(&ext))).collect() },
+        upem: *rng.pick(&[1000u16, 1000, 16, 1, 65535, 16384]),
+        glyph_prog: if rng.chance(1, 3) { vec![0x31, 0x30] } else { vec![] }, // IUP[x], IUP[y]
+        comp_off: if rng.chance(1, 3) { (*rng.pick(&ext), *rng.pick(&ext)) } else { (0, 0) },
+        advance: *rng.pick(&[600u16, 65535, 0, 32768]),
+        lsb: *rng.pick(&[0i16, i16::MIN, i16::MAX]),
+        ..Default::default()
+    };
+    let base = build_tt(&spec);
+    let ntup = rng.range(1, 4);
+    let mut desc = vec![];
+    let mut mk = |npoints: usize, rng: &mut Rng, desc: &mut Vec<String>| -> Vec<GlyphDeltas> {
+        (0..ntup)
+            .map(|_| {
+                let peak = *rng.pick(&[1.0f32, -1.0, 0.5, -0.5, 1.0]);
+                let inter = if rng.chance(1, 4) { Some((F2Dot14::from_f32(peak.min(0.0) * 0.5), F2Dot14::from_f32(if peak > 0.0 { 1.0 } else { 0.0 }))) } else { None };
+                let deltas: Vec<GlyphDelta> = (0..npoints + 4)
+                    .map(|_| {
+                        let (x, y) = (*rng.pick(&ext), *rng.pick(&ext));
+                        if rng.chance(3, 4) {
+                            GlyphDelta::required(x, y)
+                        } else {
+                            GlyphDelta::optional(x, y)
+                        }
+                    })
+                    .collect();
+                desc.push(format!("peak {peak} {:?}", deltas.iter().map(|d| (d.x, d.y, d.required)).collect::<Vec<_>>()));
+                GlyphDeltas::new(vec![Tent::new(F2Dot14::from_f32(peak), inter)], deltas)
+            })
+            .collect()
+    };
+    let v0 = mk(spec.pts.len(), rng, &mut desc);
+    let v1 = mk(1, rng, &mut desc);
+    let gvar = Gvar::new(vec![GlyphVariations::new(GlyphId::new(0), v0), GlyphVariations::new(GlyphId::new(1), v1)], 1);
+    let gvar_bytes = gvar.ok().and_then(|g| write_fonts::dump_table(&g).ok()).unwrap_or_default();
+    let mut fvar = vec![];
+    be16(&mut fvar, 1);
+    be16(&mut fvar, 0);
+    be16(&mut fvar, 16);
+    be16(&mut fvar, 2);
+    be16(&mut fvar, 1);
+    be16(&mut fvar, 20);
+    be16(&mut fvar, 0);
+    be16(&mut fvar, 8);
+    fvar.extend_from_slice(b"wght");
+    for v in [100i32 << 16, 400 << 16, 900 << 16] {
+        be32(&mut fvar, v as u32);
+    }
+    be16(&mut fvar, 0);
+    be16(&mut fvar, 256);
+    let mut tabs: Vec<([u8; 4], Vec<u8>)> = table_dir(&base).into_iter().map(|(t, o, l)| (t, base[o..o + l].to_vec())).collect();
+    tabs.push((*b"fvar", fvar));
+    if !gvar_bytes.is_empty() {
+        tabs.push((*b"gvar", gvar_bytes));
+    }
+    let refs: Vec<(&[u8; 4], Vec<u8>)> = tabs.iter().map(|(t, b)| (t, b.clone())).collect();
+    (sfnt(&refs), json!({"kind": "variable-truetype", "glyph0_points": spec.pts, "unitsPerEm": spec.upem, "component_offset": [spec.comp_off.0, spec.comp_off.1], "advance": spec.advance, "lsb": spec.lsb, "gvar_tuples (glyph 0 then composite glyph 1; x, y, required)": desc, "fvar": "wght 100/400/900"}))
+}
+
+/// Structured case `idx`: (font bytes, description, API groups to run)
+fn gen_structured(rng: &mut Rng, idx: u64) -> (Vec<u8>, serde_json::Value, Vec<usize>) {
+    match idx % 32 {
+        0 => {
+            // IFT format 1 feature map with counts up to u16::MAX
+            let wide = rng.chance(3, 4);
+            let max_entry = if wide { *rng.pick(&[400u16, 65535, 256, 40000]) } else { *rng.pick(&[255u16, 100]) };
+            let max_glyph_entry = *rng.pick(&[0u16, 10, 100]).min(&max_entry);
+            let n = rng.range(1, 3) as usize;
+            // mostly ascending distinct tags; sometimes duplicates / out of order (those records are skipped)
+            let pool = [*b"dlig", *b"liga", *b"null"];
+            let tags: Vec<[u8; 4]> = (0..3).map(|k| if rng.chance(3, 4) { pool[k] } else { *rng.pick(&pool) }).collect();
+            let counts = [1u16, 2, 16383, 16384, 16385, 32767, 32768, 32769, 65535, 65534];
+            let firsts = [0u16, 101, 301, 400, 65535, 65534, 32768];
+            let recs: Vec<([u8; 4], u16, u16)> = (0..n).map(|k| (tags[k], *rng.pick(&firsts), *rng.pick(&counts))).collect();
+            let fill: Vec<(u16, u16)> = (0..8).map(|_| (rng.range(0, 10) as u16, rng.range(0, 100) as u16)).collect();
+            let ift = build_ift_format1(max_entry, max_glyph_entry, &recs, &fill, true);
+            let mut tabs = simple_glyf_tables();
+            tabs.push((*b"IFT ", ift));
+            let refs: Vec<(&[u8; 4], Vec<u8>)> = tabs.iter().map(|(t, b)| (t, b.clone())).collect();
+            (
+                sfnt(&refs),
+                json!({"kind": "ift-format1-feature-map", "max_entry_index": max_entry, "max_glyph_map_entry_index": max_glyph_entry,
+                       "feature_records (tag, first_new_entry_index, entry_map_count)": recs.iter().map(|(t, f, c)| (String::from_utf8_lossy(t).to_string(), *f, *c)).collect::<Vec<_>>(),
+                       "entry_map_data": "sum(entry_map_count) records, zero filled", "base": "SIMPLE_GLYF + this `IFT ` table"}),
+                vec![9],
+            )
+        }
+        1..=10 => {
+            let (bytes, desc) = build_var_tt(rng);
+            (bytes, desc, vec![1, 3, 4, 5, 10, 0])
+        }
+        _ => {
+            let (cs, txt) = gen_charstring(rng);
+            // private dict: optional BlueValues / StdHW with extremes so that the CFF hinter has zones
+            let mut private = vec![];
+            if rng.chance(1, 2) {
+                for v in [-20i32, 20, 680, 20] {
+                    private.push(29);
+                    private.extend_from_slice(&v.to_be_bytes());
+                }
+                private.push(6); // BlueValues (delta encoded)
+                let w = *rng.pick(&[50i32, 32767, -1, 0]);
+                private.push(29);
+                private.extend_from_slice(&w.to_be_bytes());
+                private.push(10); // StdHW
+            } else {
+                private.extend_from_slice(&[0x8b, 20]); // defaultWidthX 0
+            }
+            let upem = *rng.pick(&[1000u16, 1000, 1, 16, 65535]);
+            (build_cff_font(&cs, &private, upem), json!({"kind": "cff-charstring", "glyph1_charstring": txt, "charstring_hex": cs.iter().map(|b| format!("{:02x}", b)).collect::<String>(), "unitsPerEm": upem, "private_dict_hex": private.iter().map(|b| format!("{:02x}", b)).collect::<String>()}), vec![3, 4, 5, 10, 1])
+        }
+    }
 }
 
 #[derive(Clone)]
@@ -1855,6 +2394,7 @@ fn search(seed: u64, thorough: bool, st: &mut Stats, fonts: &[(&'static str, Vec
     let envn = |k: &str, d: u64| std::env::var(k).ok().and_then(|v| v.parse().ok()).unwrap_or(d);
     let n_bc: u64 = envn("C20_NBC", if thorough { 100_000_000 } else { 5_000_000 });
     let n_mut: u64 = envn("C20_NMUT", if thorough { 5_000_000 } else { 300_000 });
+    let n_struct: u64 = envn("C20_NSTRUCT", if thorough { 1_000_000 } else { 60_000 });
     let threads = envn("C20_THREADS", 16);
     let trace = std::env::var("C20_TRACE").is_ok();
     // development aid: restrict the mutation search to one API group (e.g. 8 = klippa)
@@ -1943,6 +2483,40 @@ fn search(seed: u64, thorough: bool, st: &mut Stats, fonts: &[(&'static str, Vec
                     }
                     i += threads;
                 }
+                // structured extreme-value fonts
+                let mut i = t;
+                while i < n_struct {
+                    let mut rng = Rng::new(seed ^ i.wrapping_mul(0x9E3779B97F4A7C15) ^ 0x57AC);
+                    let (bytes, desc, apis) = gen_structured(&mut rng, i);
+                    *counts.entry(format!("struct.{}", desc["kind"].as_str().unwrap_or("?"))).or_insert(0) += 1;
+                    for api in apis {
+                        let sel = seed ^ i.wrapping_mul(131) ^ api as u64;
+                        if trace {
+                            eprintln!("STRUCT {} api={} {}", i, API_NAMES[api], desc);
+                        }
+                        if worker.is_none() {
+                            worker = Some(spawn_worker());
+                        }
+                        let w = worker.as_ref().unwrap();
+                        let _ = w.0.send((bytes.clone(), api, sel));
+                        match w.1.recv_timeout(std::time::Duration::from_secs(20)) {
+                            Err(_) => {
+                                worker = None;
+                                *counts.entry(format!("HANG.struct.{}", API_NAMES[api])).or_insert(0) += 1;
+                                eprintln!("HANG >20s: structured case {} api={} {}", i, API_NAMES[api], desc);
+                            }
+                            Ok(Err(trap)) => {
+                                let mut d = desc.clone();
+                                d["api"] = API_NAMES[api].into();
+                                d["api_selector"] = sel.into();
+                                d["font_hex_len"] = bytes.len().into();
+                                note(&mut found, &mut counts, (2 << 40) + i, trap, &|| d.clone(), None, None);
+                            }
+                            Ok(Ok(())) => {}
+                        }
+                    }
+                    i += threads;
+                }
                 (found, counts)
             }));
         }
@@ -1961,7 +2535,7 @@ fn search(seed: u64, thorough: bool, st: &mut Stats, fonts: &[(&'static str, Vec
             }
         }
     }
-    st.evaluations += n_bc + n_mut;
+    st.evaluations += n_bc + n_mut + n_struct;
     all
 }
 
@@ -2185,8 +2759,62 @@ fn census() -> serde_json::Value {
     })
 }
 
+fn struct_debug() {
+    use incremental_font_transfer::patchmap::{intersecting_patches, SubsetDefinition};
+    // hand-minimised IFT format 1 feature maps for the three patchmap.rs sites
+    for (name, max_entry, recs) in [
+        ("patchmap.rs:298 index * field_width * 2", 400u16, vec![(*b"dlig", 301u16, 16385u16)]),
+        ("patchmap.rs:300 first_new_entry_index + i", 100, vec![(*b"dlig", 65535, 2)]),
+        ("patchmap.rs:285 cumulative_entry_map_count", 100, vec![(*b"liga", 50, 1), (*b"liga", 50, 65535)]),
+    ] {
+        let ift = build_ift_format1(max_entry, 10, &recs, &[], true);
+        let n = ift.len();
+        let mut tabs = simple_glyf_tables();
+        tabs.push((*b"IFT ", ift));
+        let refs: Vec<(&[u8; 4], Vec<u8>)> = tabs.iter().map(|(t, b)| (t, b.clone())).collect();
+        let bytes = sfnt(&refs);
+        let r = catch_loc(move || intersecting_patches(&FontRef::new(&bytes).unwrap(), &SubsetDefinition::all()).map(|v| v.len()));
+        println!("MINIMAL {} (IFT table {} bytes): {:?}", name, n, r.map_err(|t| format!("{} @ {}", t.msg, t.loc)));
+    }
+    for idx in [0u64, 32, 64, 1, 2, 11, 12, 13] {
+        let mut rng = Rng::new(idx);
+        let (bytes, desc, _) = gen_structured(&mut rng, idx);
+        println!("--- {} len={} {}", idx, bytes.len(), &desc.to_string()[..desc.to_string().len().min(300)]);
+        let r = catch_loc(move || {
+            let font = match FontRef::new(&bytes) {
+                Ok(f) => f,
+                Err(e) => return format!("FontRef error {e}"),
+            };
+            let mut out = String::new();
+            if font.table_data(skrifa::Tag::new(b"IFT ")).is_some() {
+                let r = intersecting_patches(&font, &SubsetDefinition::all());
+                out.push_str(&format!("ift: {:?}", r.map(|v| v.len())));
+            } else {
+                let o = font.outline_glyphs();
+                out.push_str(&format!("format {:?} axes {} ", o.format(), font.axes().len()));
+                let loc = font.axes().location([("wght", 900.0f32)]);
+                for g in 0..2u32 {
+                    if let Some(gl) = o.get(GlyphId::new(g)) {
+                        let mut pen = Pts::default();
+                        let r = gl.draw(DrawSettings::unhinted(Size::new(16.0), &loc), &mut pen);
+                        out.push_str(&format!("g{} {:?} pts={:?} ", g, r.map(|_| ()), &pen.0[..pen.0.len().min(4)]));
+                    } else {
+                        out.push_str(&format!("g{} none ", g));
+                    }
+                }
+            }
+            out
+        });
+        println!("    {:?}", r.map_err(|t| format!("{} @ {}", t.msg, t.loc)));
+    }
+}
+
 fn main() {
     install_hook();
+    if std::env::var("C20_STRUCT_DEBUG").is_ok() {
+        struct_debug();
+        return;
+    }
     let args: Vec<String> = std::env::args().collect();
     let thorough = tier_is_thorough(&args);
     let seed = seed_from_env();
